@@ -9,8 +9,9 @@ Model/Sig.v (see the `wire codec` comment there):
           | [2, v, s]                Subscript
           | [3, id]                  Name
           | [4, v, attr]             Attribute
-          | [5, tag, kid...]         any other node: tag identifies class + non-node fields + shape, kids in
-                                     ast.iter_child_nodes order (that is the order generic_visit uses)
+          | [5, tag, kid...]         any other node: tag identifies class + non-node fields; kids = the fields that
+                                     hold a node or a list, in ast.iter_fields order (the order generic_visit uses)
+          | [6, e...]                the value of a list-valued field
 """
 import ast
 import hashlib
@@ -50,14 +51,18 @@ def enc_expr(node: ast.AST, depth: int = 0):
     if isinstance(node, ast.Attribute):
         return [4, enc_expr(node.value, depth + 1), node.attr]
     head = [type(node).__name__]
+    kids = []
     for f, v in ast.iter_fields(node):
         if isinstance(v, ast.AST):
             head.append('%s=N' % f)
+            kids.append(enc_expr(v, depth + 1))
         elif isinstance(v, list):
-            head.append('%s=[%s]' % (f, ','.join('N' if isinstance(x, ast.AST) else repr(x) for x in v)))
+            head.append('%s=L' % f)
+            kids.append([6] + [enc_expr(x, depth + 1) if isinstance(x, ast.AST) else [5, h48('item:%r' % (x,))]
+                               for x in v])
         else:
             head.append('%s=%r' % (f, v))
-    return [5, h48('|'.join(head))] + [enc_expr(k, depth + 1) for k in ast.iter_child_nodes(node)]
+    return [5, h48('|'.join(head))] + kids
 
 
 def opt(x):
